@@ -127,6 +127,8 @@ package bytes
 
 // FreeBlock(idx): s = idx/B, p = (idx%B)/8, j = (idx%B)%8 is the header bit of block idx
 //@ func (bks *Blocks) FreeBlock(idx int) error
+// (the second return - Buffer() failing for a header block - cannot happen: geom() puts every header inside the store)
+//@   deadreturn 2
 //@   props C17
 //@   requires bks.wf() && 0 - (1<<30) <= bks.available && bks.available <= 1<<30
 //@   modifies bks.freeIdx, bks.available, bytesOf(bks.bts.sarr, bks.bts.soff, bks.bts.ssize)
